@@ -90,7 +90,7 @@ def _order_field(program):
     return wg, fields, (compared[0] if len(compared) == 1 else None)
 
 
-def run(program, rep, tier):
+def run(program, rep, tier, sleep_only=False):
     cp = program.cls('CoroutineProcessor')
     f = program.method('CoroutineProcessor', 'process')
     site = f.where
@@ -439,6 +439,8 @@ def run(program, rep, tier):
               'the active deque starts with exactly one sentinel',
               'the active deque is not initialised with exactly one None '
               'sentinel', line=init.node.lineno)
+    if sleep_only:
+        return
     # ---- queued exactly once (C09 typestate) ------------------------------------------
     c09.run_methods(program, rep, 'C08', only={'preserve'})
     c09.run_process(program, rep, 'C08')
